@@ -11,6 +11,7 @@ pub mod c07;
 pub mod c09;
 pub mod c10;
 pub mod c11;
+pub mod c12;
 pub mod c17;
 pub mod c18;
 pub mod c19;
@@ -28,6 +29,7 @@ pub fn lookup(id: &str) -> Option<&'static dyn Property> {
         "C09" => &c09::C09,
         "C10" => &c10::C10,
         "C11" => &c11::C11,
+        "C12" => &c12::C12,
         "C17" => &c17::C17,
         "C18" => &c18::C18,
         "C19" => &c19::C19,
